@@ -13,6 +13,7 @@ import (
 	"github.com/Oudwins/zog/i18n"
 	"github.com/Oudwins/zog/i18n/en"
 	"github.com/Oudwins/zog/i18n/es"
+	"github.com/Oudwins/zog/parsers/zjson"
 	"github.com/Oudwins/zog/zconst"
 	"github.com/Oudwins/zog/zhttp"
 	v "github.com/Oudwins/zog/zzverif"
@@ -170,7 +171,7 @@ func c11Catalogue() []c11case {
 }
 
 func C11_Jobs() []string {
-	out := []string{"catalogue/en", "catalogue/es", "catalogue/default", "precedence", "i18n", "value-ref"}
+	out := []string{"catalogue/en", "catalogue/es", "catalogue/default", "precedence", "i18n", "value-ref", "multi-param", "decode-twice"}
 	return out
 }
 func C11_Covers() []string { return []string{"catalogue-case", "precedence-case"} }
@@ -201,6 +202,36 @@ func C11_Run(job string) {
 		}
 		v.Assert(e.Message != "", "C11:empty-message")
 		v.Assert(!strings.Contains(e.Message, "{{"), "C11:unresolved-placeholder")
+	case "multi-param":
+		// every {{placeholder}} of a message is substituted, whatever the order in which the
+		// params map is iterated (the engine permutes the range in the formatter)
+		lm := zconst.LangMap{"number": {"between": "must be between {{lo}} and {{hi}} (got {{value}})", "fallback": "invalid"}}
+		x := v.Int("x")
+		v.Assume(x < 0)
+		var d int
+		errs := z.Int().TestFunc(func(val any, c z.Ctx) bool { return false }, z.IssueCode("between"), z.Params(map[string]any{"lo": 18, "hi": 65, "unused": 1})).
+			Parse(x, &d, z.WithIssueFormatter(conf.NewDefaultFormatter(lm)))
+		v.Assert(len(errs) == 1, "C11:expected-exactly-one-issue")
+		v.Assert(strings.HasPrefix(errs[0].Message, "must be between 18 and 65 (got "), "C11:unresolved-placeholder")
+		v.Assert(!strings.Contains(errs[0].Message, "{{"), "C11:unresolved-placeholder")
+		v.Cover("precedence-case")
+	case "decode-twice":
+		// two executions that fail to decode: each uses its own formatter
+		bodies := []string{"null", "{", "[1]"}
+		body := bodies[v.Choice("body", len(bodies))]
+		mk := func(tag string) z.ExecOption {
+			return z.WithIssueFormatter(func(e *z.ZogIssue, c z.Ctx) { e.SetMessage(tag + ":" + e.Code) })
+		}
+		type S struct{ A int }
+		var d S
+		e1 := z.Struct(z.Schema{"a": z.Int()}).Parse(zhttp.Request(c11Request("POST", "application/json", body, "")), &d, mk("A"))
+		e2 := z.Struct(z.Schema{"a": z.Int()}).Parse(zjson.Decode(strings.NewReader(body)), &d, mk("B"))
+		e3 := z.Struct(z.Schema{"a": z.Int()}).Parse(zjson.Decode(strings.NewReader(body)), &d)
+		v.Assert(len(e1["$root"]) == 1 && e1["$root"][0].Message == "A:invalid_json", "C11:message-precedence")
+		v.Assert(len(e2["$root"]) == 1 && e2["$root"][0].Message == "B:invalid_json", "C11:message-precedence")
+		v.Assert(len(e3["$root"]) == 1 && e3["$root"][0].Message == "invalid json body", "C11:message-precedence")
+		v.Assert(e1["$root"][0] != e2["$root"][0], "C11:issue-object-shared-between-executions")
+		v.Cover("precedence-case")
 	case "value-ref":
 		// the issue refers to the offending value
 		x := v.Int("x")
